@@ -240,6 +240,12 @@ class CFG:
         self.exit = c["exit"]
         self.blocks = {b["id"]: b for b in c["blocks"]}
         self.succ = {b: [s for s in self.blocks[b]["succ"] if s is not None] for b in self.blocks}
+        # a try-dispatch block's edge to the exit block is the 'no handler matches' exceptional exit: not a normal exit
+        self.exc_exit = set()
+        for b, blk in self.blocks.items():
+            if blk.get("termk") == "CXXTryStmt" and self.exit in self.succ[b]:
+                self.succ[b] = [s for s in self.succ[b] if s != self.exit]
+                self.exc_exit.add(b)
         # synthetic exception edges: try-body blocks containing a call/throw -> dispatch block
         self.block_of = {}
         for b in self.blocks.values():
@@ -364,13 +370,26 @@ class CFG:
             return None
         # clang reports the whole 'A && B' as the condition of the block that evaluates B (reached
         # only once A is decided): the branch is on the right-most operand
+        # ... but only when this block is entered solely through the 'keep evaluating' edge of that
+        # operator; when the short-circuit edge joins here too (operands with temporaries), the branch
+        # is on the value of the whole expression
+        cur = a
         while True:
             c2 = cond
             while c2["k"] in ("ParenExpr", "ExprWithCleanups") and kids(c2):
                 c2 = kids(c2)[0]
             if c2["k"] == "BinaryOperator" and c2["op"] in ("&&", "||"):
-                cond = kids(c2)[1]
-                continue
+                want = 0 if c2["op"] == "&&" else 1
+                preds = self.pred.get(cur, [])
+                ok = bool(preds)
+                for p in preds:
+                    pb = self.blocks[p]
+                    ps = pb["succ"]
+                    if pb.get("term") != c2["id"] or len(ps) != 2 or ps[want] != cur or ps[1 - want] == cur:
+                        ok = False
+                if ok:
+                    cond = kids(c2)[1]
+                    continue
             break
         if ss[0] == b and ss[1] != b:
             return (cond, True)
